@@ -4,6 +4,6 @@ CONSTANTS
   MaxAutos = 3
   MaxIters = 4
   MaxActs = 14
-SPECIFICATION Spec
+SPECIFICATION SimSpec
 INVARIANT Emit Interleaved Lazy
 CHECK_DEADLOCK FALSE
